@@ -12,6 +12,32 @@ check("C05", "model_checking",
       "explicit-state BFS on real code vs reference model + preemption-bounded schedule DFS under a controlled scheduler",
       "DESIGN.md §4 C05")
 
+check("C01", "model_checking",
+      "The conservation law (sum of all account credit and trial credit, read both from the getters and from Stats) is evaluated after every event of every pool-session history up to the depth bound, on the real pool with real signed requests, for both store drivers and 8 price/interval/minimum configurations; every event is additionally run with each single store call failing; concurrent keep-alives/links are explored under a controlled scheduler with scheduling points inside the memory driver's statements and inside badger transaction closures (so optimistic-transaction conflicts really occur) up to a preemption bound.",
+      "Bounded depth / preemption bound / alphabet as reported; nonce marks excluded from the state key (harness nonces strictly increase); deposits and settlement modelled at the BalanceStore / SettleHandler seams; build-overlay instrumentation trusted (repository suite passes on it).",
+      "explicit-state BFS on the real pool with invariant checking + single-fault deviations + preemption-bounded schedule DFS",
+      "DESIGN.md §4 C01")
+check("C02", "model_checking",
+      "Bounded-exhaustive: the full product of elapsed x price x interval x peer set x node kind x linkage is run through the real OnUpdate on both drivers and judged by the defining inequality q*I <= elapsed*price < (q+1)*I (big integers, binary search, not the implementation's expression); all 32 ways of slicing one 6-step span into keep-alives x 18 configurations go through the real signed pool (total within one unit per keep-alive per peer of the unsliced charge, client debited exactly the sum); every store call of a billing keep-alive is failed once (all-or-nothing).",
+      "Finite alphabets listed in the evidence rule; negative elapsed not explored; all-or-nothing judged on balances.",
+      "bounded-exhaustive input/history enumeration on real code vs arithmetic reference + exhaustive single-fault injection",
+      "DESIGN.md §4 C02")
+check("C03", "model_checking",
+      "Full product of minimum x balance around the threshold x deposit/credit split x entry point (vipnode_connect, vipnode_client, vipnode_host) and x charge x peer count x client/host for keep-alives on the real pool with a deposit overlay equivalent to the contract store; oracle: refused/cut off iff client and deposit+credit after the charge < minimum, reported balance equals the balance read back, exactly one vipnode_disconnect per connected active peer, ledger zero-sum; plus BFS over histories walking a balance across the threshold in both directions.",
+      "Finite alphabets; the statement is silent about non-billing keep-alives of a client already below the minimum (not judged).",
+      "bounded-exhaustive configuration enumeration + explicit-state BFS on the real pool",
+      "DESIGN.md §4 C03")
+check("C11", "model_checking",
+      "Every history of keep-alives by a node and its peers (all report subsets incl. unknown and duplicate ids, peers checking in, reconnects, gaps of 59s/60s/61s/120s-1ns/120s+1ns) up to depth 4-6 is run on both real drivers and through the real signed vipnode_update; declared-invalid set, active set (NodePeers / ActivePeers) and the set of peers billed are compared with a peer-tracking reference model after every step, plus a model-independent oracle (a reported peer whose own check-in is inside the window is never declared).",
+      "Timestamps exactly on the boundary are not judged (branch closed, counted); depth bound.",
+      "explicit-state BFS on real code vs reference model",
+      "DESIGN.md §4 C11")
+check("C12", "model_checking",
+      "A reference model of the documented store contract and both real drivers are driven in lock-step through every sequence of store mutators up to depth 3 (quick) / 4 (thorough, ~200k transitions); after every transition the complete read battery (every getter x every id incl. empty and unregistered x every account x every kind x limits 0..3, Stats) of each driver is compared with the model, and the two drivers' results with each other.",
+      "Negative limits excluded (outside the property's domain); list order and host choice under a limit not judged; model keeps tracked peers on re-SetNode (contract silent, drivers must agree).",
+      "explicit-state BFS, model + two implementations in lock-step",
+      "DESIGN.md §4 C12")
+
 ALL = ["C%02d" % i for i in range(1, 21)]
 NA_REASON = "check not built yet (work in progress; see DESIGN.md §4 for the planned model-checking design)"
 
